@@ -58,6 +58,10 @@ add("C14", EX, "Exhaustive enumeration of nested argument templates (depth <= 2,
     "small-scope exhaustive template enumeration against a structural reference model")
 add("C15", EX, "Bounded-exhaustive enumeration of delayed expression programs (every operation at level 1, representative-closed deeper levels to depth 3, thorough 4) on the real dask.delayed, each compared with the same AST evaluated eagerly, plus key-determinism, key-injectivity and nout oracles.", "5/C15", PY_NOTE,
     "small-scope exhaustive program enumeration against an eager Python evaluator")
+add("C26", EX, "Bounded-exhaustive exploration on the real overlap code: every chunking x depth x boundary (including asymmetric depths and the rechunk-to-fit path) of small 1-d/2-d/3-d arrays through overlap/trim_internal, map_overlap and sliding_window_view, compared exactly with np.pad + whole-array stencils and NumPy's sliding_window_view.", "5/C26", ARR_NOTE,
+    "small-scope exhaustive enumeration (all chunkings x depths x boundaries) against a NumPy reference")
+add("C35", EX, "Bounded-exhaustive exploration of map_blocks, blockwise and apply_gufunc over every chunking of small inputs with probing user functions whose received blocks are located by their distinct values: one call per output block, block alignment incl. broadcast blocks, block_id/block_info truth, metadata of drop_axis/new_axis/adjust_chunks, values against NumPy / np.vectorize.", "5/C35", ARR_NOTE,
+    "small-scope exhaustive enumeration with value-traced probe functions against a NumPy reference")
 
 
 def build():
